@@ -937,11 +937,83 @@ func sharedSentinelRun(cc, budget, n int) (attempts []int32, okSlots int, err er
 	return
 }
 
+// dupStopRun: a stop-mode batch over string / int items of which several are EQUAL; the item at index f fails. Returns
+// the indices that were executed and the slots that came back as successes.
+func dupStopRun(cc int, kind string, f int) (executed []int, okSlots []int, n int, err error) {
+	words := []string{"alpha", "boom", "alpha", "beta", "alpha", "beta", "gamma"}
+	n = len(words)
+	var mu sync.Mutex
+	calls := 0
+	prep := func(ctx context.Context, s *flyt.SharedStore) (any, error) {
+		if kind == "ints" {
+			l := make([]int, n)
+			for i, w := range words {
+				l[i] = len(w) // 5 4 5 4 5 4 5: many equal ints
+			}
+			return l, nil
+		}
+		return append([]string(nil), words...), nil
+	}
+	bn := flyt.NewBatchNode(flyt.WithPrepFuncAny(prep), flyt.WithBatchConcurrency(cc), flyt.WithBatchErrorHandling(false)).
+		WithExecFuncAny(func(ctx context.Context, v any) (any, error) {
+			mu.Lock()
+			i := calls // sequential / one worker: the k-th call is item k
+			calls++
+			executed = append(executed, i)
+			mu.Unlock()
+			if i == f {
+				return nil, fmt.Errorf("item %d fails", i)
+			}
+			return v, nil
+		}).
+		WithPostFunc(func(ctx context.Context, s *flyt.SharedStore, items, results []flyt.Result) (flyt.Action, error) {
+			for i, r := range results {
+				if !r.IsError() {
+					okSlots = append(okSlots, i)
+				}
+			}
+			return "done", nil
+		})
+	_, err = flyt.Run(context.Background(), bn, flyt.NewSharedStore())
+	return
+}
+
 func runC09(c *Cfg) {
 	r := c.Rep
 	if RaceEnabled {
 		runBatchRace(c, "C09")
 		return
+	}
+	// equal items are separate items also in stop mode: the ones behind the failing item are not executed and are not
+	// presented as successes (because an equal item in front of it succeeded, say)
+	for _, cc := range []int{0, 1} {
+		for _, kind := range []string{"strings", "ints"} {
+			for _, f := range []int{1, 3} {
+				if !c.Mine(cc + f) {
+					continue
+				}
+				ex, ok, n, err := dupStopRun(cc, kind, f)
+				r.Eval()
+				r.Count("dup_stop.runs", 1)
+				dc := map[string]any{"family": "stop-mode-equal-items", "kind": kind, "c": cc, "fail_at": f}
+				if err == nil {
+					for _, i := range ok {
+						if i > f {
+							r.Violate("C09", "C09:unprocessed-as-success:equal-items", fmt.Sprintf("stop mode, concurrency %d, %d %s items of which several are equal, item %d fails: slot %d (behind the failing item, never executed: %d exec calls were made) is presented as a success", cc, n, kind, f, i, len(ex)), dc)
+							break
+						}
+						if i == f {
+							r.Violate("C09", "C09:failed-item-as-success:equal-items", fmt.Sprintf("stop mode, concurrency %d, %d %s items of which several are equal: item %d failed, its slot is presented as a success", cc, n, kind, f), dc)
+							break
+						}
+					}
+					if len(ex) > f+1 {
+						r.Violate("C09", "C09:executed-behind-failing-item:equal-items", fmt.Sprintf("stop mode, concurrency %d, item %d fails: %d exec calls were made, want %d", cc, f, len(ex), f+1), dc)
+					}
+				}
+				r.Nontrivial(fmt.Sprintf("ds %d %s %d", cc, kind, f))
+			}
+		}
 	}
 	// a stop-mode batch halts also when it runs inside an item of another (continue-mode) batch
 	for _, oc := range []int{0, 2} {
